@@ -350,6 +350,81 @@ def r10_4(chk, tier):
                     if pname: work.append((callee, (pname,)))
     chk.require(n >= 6, 'R10.4: only %d functions with sizing calls analysed' % n)
 
+def r10_5(chk, tier):
+    chk.rule('R10.5', 'UBJSON max_items: every length that sizes a counted container is compared with max_items_ (`length > max_items_` -> '
+                      'max_items_exceeded) before the frame is pushed, and indefinite containers count items against it', floor=6)
+    facts = F.load(['ubjson'], tier)
+    n = 0
+    for fn in U.one_per_inst(U.functions(facts, cls='basic_ubjson_parser')):
+        if fn.get('body') is None: continue
+        g = None
+        # (a) counted pushes
+        for c in A.calls_in(fn['body']):
+            if A.is_call(c) and A.callee_name(c) in ('emplace_back', 'push_back') and A.ref_name(c.get('obj')) == 'state_stack_':
+                args = c.get('args') or []
+                mode = U.enum_const_name(args[0]) if args else None
+                if mode in (None, 'root') or 'indefinite' in (mode or ''): continue
+                lv = A.ref_name(args[1]) if len(args) > 1 else ''
+                if not lv: continue
+                if g is None: g = C.CFG(fn['body'])
+                nd = g.node_of(c)
+                n += 1
+                chk.analysed(fn)
+                ok = False
+                for cond_ast, label, edge in (g.guards(nd) if nd else []):
+                    cmp_ = G.comparison(cond_ast)
+                    if cmp_ and A.ref_name(cmp_[1]) == lv and A.ref_name(cmp_[2]) == 'max_items_' and cmp_[0] == '>' and label is False:
+                        rej = [e for e in edge.src.succ if e.label is True]
+                        if rej and any(x.kind == 'stmt' and G.assigns_enumerator(x.ast, {'ec'}, 'max_items_exceeded') for x in G.block_after(rej[0])): ok = True
+                site = U.site(fn, 'counted push %s(%s)' % (mode, lv))
+                if ok: chk.ok('R10.5', site, {'function': fn['q'], 'line': c.get('l')})
+                else: chk.fail('R10.5', site, fn['file'], c.get('l'), 'frame parse_mode::%s is pushed with the announced count `%s` that was not compared with max_items_ (`%s > max_items_` -> max_items_exceeded)' % (mode, lv, lv), None, fn['q'])
+        # (b) indefinite containers count items
+        for x in A.walk_no_lambda(fn['body']):
+            if x.get('k') == 'BinaryOperator' and x.get('op') in ('>', '>=') and A.ref_name(x.get('rhs')) == 'max_items_':
+                l = A.strip(x.get('lhs'), casts=True)
+                if l is not None and l.get('k') == 'UnaryOperator' and l.get('op') == '++':
+                    n += 1
+                    site = U.site(fn, 'indefinite item count @%d' % (x.get('l', 0) - fn['l']))
+                    shape = G.quantity_shape(x.get('lhs'))
+                    exact = (shape[0] == 'preinc' and x['op'] == '>') or (shape[0] == 'postinc' and x['op'] == '>=')
+                    if exact: chk.ok('R10.5', site, {'function': fn['q'], 'line': x.get('l')})
+                    else: chk.fail('R10.5', site, fn['file'], x.get('l'), 'item count of an indefinite container compared inexactly with max_items_ (`%s`)' % A.text(x)[:50], None, fn['q'])
+    chk.require(n >= 6, 'R10.5: only %d max_items comparisons/pushes found' % n)
+
+def r10_6(chk, tier):
+    chk.rule('R10.6', 'stack-safe destruction: the destructors of json_array, sorted_json_object and ordered_json_object call '
+                      'flatten_and_destroy(), which moves non-empty children of both container kinds to its work list before clearing', floor=3)
+    facts = F.load(['core'], tier)
+    for cls, file in (('json_array', 'json_array.hpp'), ('sorted_json_object', 'sorted_json_object.hpp'), ('order_preserving_json_object', 'ordered_json_object.hpp')):
+        dts = [f for f in facts.functions if f.get('fk') == 'CXXDestructor' and not f.get('dep') and f['file'].endswith(file) and f.get('body') is not None]
+        chk.require(dts, 'destructor in %s not found' % file)
+        for fn in U.one_per_inst(dts)[:2]:
+            chk.analysed(fn)
+            site = U.site(fn, 'destructor')
+            calls = [c for c in A.calls_in(fn['body']) if A.callee_name(c) == 'flatten_and_destroy']
+            if not calls:
+                chk.fail('R10.6', site, fn['file'], fn['l'], 'destructor does not call flatten_and_destroy(): destroying a deeply nested value recurses once per level', None, fn['q']); continue
+            callee = facts.callee(fn, calls[0])
+            kinds_moved = set()
+            if callee is not None and callee.get('body') is not None:
+                g = C.CFG(callee['body'])
+                for nd in g.rpo:
+                    if nd.kind == 'stmt' and isinstance(nd.ast, dict) and any(A.callee_name(c) in ('push_back', 'emplace_back') for c in A.calls_in(nd.ast)):
+                        # case labels (possibly stacked: `case array: case object:`) of the dominating kind switch that lead here
+                        for d in g.dominators(nd):
+                            if d.kind == 'switch':
+                                for e in d.succ:
+                                    if e.kind == 'edge' and isinstance(e.label, tuple) and e.label[0] == 'case' and g.can_reach(e, [nd], avoid=[d]):
+                                        kinds_moved.add(e.label[1])
+                                break
+                        # or an explicit test of both kinds in one condition
+                        for a, lab, e in g.guards(nd):
+                            for y in A.walk(a):
+                                if y.get('k') == 'DeclRefExpr' and y.get('dk') == 'EnumConstant' and y.get('n') in ('array', 'object'): kinds_moved.add(y.get('v'))
+            if len(kinds_moved) >= 2: chk.ok('R10.6', site, {'function': fn['q'], 'kinds_flattened': sorted(kinds_moved)})
+            else: chk.fail('R10.6', site, fn['file'], fn['l'], 'flatten_and_destroy() moves children of %d container kind(s) to the work list, both array and object are needed' % len(kinds_moved), None, fn['q'])
+
 def run(chk, tier, only_rule=None):
     chk.explanation = EXPLANATION
     chk.not_decided = NOT_DECIDED
@@ -357,3 +432,5 @@ def run(chk, tier, only_rule=None):
     r10_2(chk, tier)
     r10_3(chk, tier)
     r10_4(chk, tier)
+    r10_5(chk, tier)
+    r10_6(chk, tier)
